@@ -85,3 +85,57 @@ impl Src for ReplaySrc {
         }
     }
 }
+
+/// Small-scope enumeration source (native only): every draw ranges over a small domain of representative
+/// values; the driver loop in replay.rs steps through all combinations like a mixed-radix counter.
+/// Used for BOUNDED stand-in checks of functions CBMC cannot handle (heap-heavy schema code).
+pub struct EnumSrc {
+    pub digits: Vec<usize>,   // current choice per draw position
+    pub radix: Vec<usize>,    // domain size seen at each draw position in the current run
+    pub pos: usize,
+    pub rejected: bool,
+}
+const U8_DOM: [u8; 5] = [0, 1, 2, 3, 255];
+const U16_DOM: [u16; 4] = [0, 1, 2, 0xffff];
+const U32_DOM: [u32; 4] = [0, 1, 2, 0xffff_ffff];
+const U64_DOM: [u64; 5] = [0, 1, 2, 1 << 62, u64::MAX];
+impl EnumSrc {
+    pub fn new() -> Self { EnumSrc { digits: Vec::new(), radix: Vec::new(), pos: 0, rejected: false } }
+    fn pick(&mut self, n: usize) -> usize {
+        if self.pos >= self.digits.len() { self.digits.push(0); self.radix.push(n); }
+        self.radix[self.pos] = n;
+        let d = self.digits[self.pos] % n;
+        self.pos += 1;
+        d
+    }
+    /// advance to the next combination; false when exhausted
+    pub fn step(&mut self) -> bool {
+        // only positions actually drawn in the last run count
+        let used = self.pos;
+        self.digits.truncate(used);
+        self.radix.truncate(used);
+        let mut i = used;
+        while i > 0 {
+            i -= 1;
+            if self.digits[i] + 1 < self.radix[i] {
+                self.digits[i] += 1;
+                self.digits.truncate(i + 1);
+                self.radix.truncate(i + 1);
+                self.pos = 0;
+                self.rejected = false;
+                return true;
+            }
+        }
+        false
+    }
+}
+pub struct Rejected;
+impl Src for EnumSrc {
+    fn u8(&mut self) -> u8 { U8_DOM[self.pick(U8_DOM.len())] }
+    fn u16(&mut self) -> u16 { U16_DOM[self.pick(U16_DOM.len())] }
+    fn u32(&mut self) -> u32 { U32_DOM[self.pick(U32_DOM.len())] }
+    fn u64(&mut self) -> u64 { U64_DOM[self.pick(U64_DOM.len())] }
+    fn u128(&mut self) -> u128 { self.u64() as u128 }
+    fn bool(&mut self) -> bool { self.pick(2) == 1 }
+    fn assume(&mut self, c: bool) { if !c { self.rejected = true; std::panic::panic_any(Rejected); } }
+}
